@@ -35,3 +35,100 @@ def loading_bodies(prog):
             continue
         out.append(b)
     return out
+
+
+# ---- F-TRAV: traversal completeness over ParsedValue ---------------------------------------------
+
+PARSED_VALUE_VARIANTS = ["Default", "ForeignKey", "Ranges", "Literal", "Variable", "Component", "Bloc", "Subkeys", "Plurals"]
+
+
+def pv_arms(fn, scrutinee_names=("self", "this", "*self", "&*self", "&mut*self")):
+    """{variant: [arm,..]} for the first match over a ParsedValue in fn (or-patterns expanded); also returns wildcard arm"""
+    from astlib import find_all, show, show_pat
+    import re as _re
+    for m in find_all(fn.body, "Match"):
+        sc = _re.sub(r"\s+", "", show(m["scrutinee"]))
+        pats = " ".join(show_pat(a["pat"]) for a in m["arms"])
+        if "ParsedValue::" not in pats:
+            continue
+        if sc.startswith("("):
+            continue
+        out = {}
+        wild = None
+        for a in m["arms"]:
+            pt = show_pat(a["pat"])
+            if a["pat"]["k"] in ("PWild",) or (a["pat"]["k"] == "PIdent" and "::" not in pt):
+                wild = a
+                continue
+            for v in _re.findall(r"ParsedValue::(\w+)", pt):
+                out.setdefault(v, []).append(a)
+        return m, out, wild
+    return None, {}, None
+
+
+def ftrav(rule, prefix, fn, spec, file=None):
+    """spec: variant -> (list of callee/method names of which at least one must be called in every arm for that variant,
+    or None when the variant has no children to visit, reason). Checks: every variant has an arm (no wildcard swallowing
+    a child-bearing variant), and the required call is present."""
+    from astlib import find_all, show, callee_path
+    import re as _re
+    if fn is None:
+        rule.missing(prefix)
+        return
+    m, arms, wild = pv_arms(fn)
+    if m is None:
+        rule.missing(prefix + " (match over ParsedValue)")
+        return
+    for v in PARSED_VALUE_VARIANTS:
+        need, why = spec.get(v, (None, "no children"))
+        alist = arms.get(v)
+        if not alist:
+            if wild is not None and need is None:
+                rule.inst("%s#%s" % (prefix, v), "covered by the catch-all arm: " + why)
+                continue
+            rule.viol("TRAV:%s#%s" % (prefix, v), "%s has no arm for ParsedValue::%s%s" % (prefix, v, " (a catch-all arm would skip its children)" if wild is not None else ""), file=fn.file, line=fn.line)
+            continue
+        if need is None:
+            rule.inst("%s#%s" % (prefix, v), why)
+            continue
+        for a in alist:
+            called = set()
+            for n in find_all(a["body"], ("MethodCall", "Call")):
+                if n["k"] == "MethodCall":
+                    called.add(n["method"])
+                else:
+                    p = callee_path(n)
+                    if p:
+                        called.add(p.split("::")[-1])
+            # fn items passed by name (e.g. .map(Self::reduce))
+            for n in find_all(a["body"], "Path"):
+                called.add(n["path"].split("::")[-1])
+            if not (set(need) & called):
+                rule.viol("TRAV:%s#%s" % (prefix, v), "%s: the arm for ParsedValue::%s does not visit its children (expected a call to one of %s; %s)" % (prefix, v, need, why), file=fn.file, line=a["line"])
+            else:
+                rule.inst("%s#%s" % (prefix, v), "visits children via %s" % sorted(set(need) & called))
+
+
+def flat(s):
+    """text without whitespace"""
+    return re.sub(r"\s+", "", s)
+
+
+def flatp(s):
+    """text without whitespace and parentheses, with statement separators normalised: tolerant to formatting,
+    redundant grouping and optional semicolons"""
+    s = re.sub(r"[\s()]+", "", s)
+    s = re.sub(r";+", ";", s)
+    s = s.replace(";}", "}")
+    s = s.replace("};", "}")
+    return s
+
+
+def has(text, frag):
+    """fragment containment modulo whitespace, parentheses and optional semicolons (both sides normalised)"""
+    f = flatp(frag).rstrip(";")
+    return f in flatp(text)
+
+
+def same(text, want):
+    return flatp(text) == flatp(want)
